@@ -243,6 +243,12 @@ def run(repo: Repo, chk: Check):
     if not tables:
         raise AnalysisError("SetModuleNames.run: the statement that replaces data.modules by the renamed table was not found")
     key_store = [st for st in ast.walk(sm) if isinstance(st, ast.Assign) and any(isinstance(t, ast.Subscript) and norm(t.value) in tables for t in st.targets)]
+    in_place = [st for st in ast.walk(sm) if isinstance(st, ast.Assign) and any(isinstance(t, ast.Subscript) and norm(t.value).endswith("data.modules") for t in st.targets)]
+    if in_place:
+        chk.bad("R13.e", "compile_pass:SetModuleNames:module.name and the key of the module table are the same alias",
+                f"'{norm(in_place[0])[:70]}' re-keys the table of modules in place while the import statements are still being read from it: an alias that equals the "
+                f"file name of another library (imported later, or two libraries swapping names) overwrites or picks up the wrong module", None, ws)
+        key_store = key_store or in_place
     if len(name_store) != 1 or len(key_store) != 1:
         raise AnalysisError(f"SetModuleNames.handle_import_from: expected one store of <module>.name and one store into the renamed table, found {len(name_store)} / {len(key_store)}")
 
